@@ -108,6 +108,9 @@ func c14Sets() []c14Set {
 			c14NewSet("q3p1", 4, []int{55, 30, 40}, []int{56}),
 			c14NewSet("q2p1", 4, []int{30, 55}, []int{40}),
 			c14NewSet("q3p2", 5, []int{40, 30, 55}, []int{45, 46}),
+			// three / four auxiliary primes, #P does not divide #Q: RNS digits of LevelP+1 primes, the last one shorter
+			c14NewSet("q4p3", 4, []int{30, 35, 40, 45}, []int{50, 51, 52}),
+			c14NewSet("q5p4", 4, []int{30, 32, 34, 36, 38}, []int{50, 51, 52, 53}),
 			c14NewSetRing("ciq3p1", 4, []int{40, 30, 55}, []int{56}, ring.ConjugateInvariant),
 			c14NewSetRing("ciq2", 4, []int{36, 50}, nil, ring.ConjugateInvariant),
 		}
@@ -410,6 +413,9 @@ type c14Keys struct {
 }
 
 func c14GenKeys(set c14Set, n int) c14Keys {
+	if c14KeyOverride != nil && len(c14KeyOverride.sk) == n {
+		return *c14KeyOverride
+	}
 	kgen := rlwe.NewKeyGenerator(set.params)
 	k := c14Keys{sk: make([]*rlwe.SecretKey, n), ideal: rlwe.NewSecretKey(set.params), s: make([][]int, n)}
 	for i := range k.sk {
@@ -458,6 +464,16 @@ func (e c14Evk) String() string { return fmt.Sprintf("lq=%d lp=%d b2=%d", e.lq, 
 
 func c14EvkConfigs(set c14Set) []c14Evk {
 	var out []c14Evk
+	if set.maxP() >= 2 {
+		// many auxiliary primes: the shapes that matter are the digit layouts (LevelP+1 primes per digit)
+		for _, lq := range []int{set.maxQ(), set.maxQ() - 1, 1} {
+			for _, lp := range []int{set.maxP(), set.maxP() - 1, 1} {
+				out = append(out, c14Evk{lq, lp, 0})
+			}
+		}
+		out = append(out, c14Evk{set.maxQ(), 0, 16}, c14Evk{set.maxQ(), -1, 8})
+		return out
+	}
 	lqs := []int{0, set.maxQ()}
 	if set.maxQ() > 1 {
 		lqs = []int{0, 1, set.maxQ()}
@@ -504,6 +520,16 @@ func genC14(c *Ctx) {
 				c14Guard(c, "C14-harness-panic", "c14RKG", func() { c14RKG(c, set, n, cfg) })
 			}
 		}
+		// multi-key sessions: the same parties (same secret-key objects) generate cpk, rlk, Galois keys and evks in sequence
+		for _, scfg := range c14SessionCfgs(set) {
+			for rep := 0; rep < c.Scale(1, 3); rep++ { // a fresh random order of the generations each time
+				c14Guard(c, "C14-harness-panic", "c14Session", func() { c14Session(c, set, 2+c.rng.Intn(2), scfg) })
+			}
+		}
+		// the CRS created with NewPRNG() by one party and shared through Key() / NewKeyedPRNG(key)
+		for _, n := range []int{2, 3} {
+			c14Guard(c, "C14-harness-panic", "c14CRSShared", func() { c14CRSShared(c, set, n) })
+		}
 		// every Galois element of the list (in the conjugate-invariant ring the inverse modulo NthRoot = 4N
 		// of rotations by 1, 2, 3, 10 lies above 2N)
 		gcfg := c14Evk{set.maxQ(), set.maxP(), 0}
@@ -516,6 +542,108 @@ func genC14(c *Ctx) {
 		c14Guard(c, "C14-harness-panic", "c14Mismatch", func() { c14Mismatch(c, set) })
 	}
 }
+
+// ---------------------------------------------------------------------------------------------
+// inputs of a protocol function are left bit-for-bit unchanged
+
+func c14RawQP(p ringqp.Poly) string { return Mat(RawRows(p.Q)) + "/" + Mat(RawRows(p.P)) }
+
+func c14RawSks(keys ...c14Keys) string {
+	var sb strings.Builder
+	for _, k := range keys {
+		for _, sk := range k.sk {
+			sb.WriteString(c14RawQP(sk.Value))
+			sb.WriteByte(' ')
+		}
+	}
+	return sb.String()
+}
+
+func c14RawCRP(m [][]ringqp.Poly) string {
+	var sb strings.Builder
+	for i := range m {
+		for j := range m[i] {
+			sb.WriteString(c14RawQP(m[i][j]))
+			sb.WriteByte(' ')
+		}
+	}
+	return sb.String()
+}
+
+func c14RawGadget(g *rlwe.GadgetCiphertext) string {
+	var sb strings.Builder
+	fmt.Fprintf(&sb, "%d ", g.BaseTwoDecomposition)
+	for i := range g.Value {
+		for j := range g.Value[i] {
+			for k := range g.Value[i][j] {
+				sb.WriteString(c14RawQP(g.Value[i][j][k]))
+				sb.WriteByte(' ')
+			}
+		}
+	}
+	return sb.String()
+}
+
+// c14Inputs snapshots the named arguments now; the returned function compares them after the calls and emits the probe.
+func c14Inputs(c *Ctx, fn, label string, names []string, snaps []func() string) func() {
+	before := make([]string, len(snaps))
+	for i := range snaps {
+		before[i] = snaps[i]()
+	}
+	return func() {
+		detail := ""
+		for i := range snaps {
+			if snaps[i]() != before[i] {
+				detail = "argument_" + names[i] + "_was_modified"
+				break
+			}
+		}
+		c.Probe("inputs_unchanged", fn+" "+strings.Join(names, ",")+" "+label, "C14/"+fn+"/input-modified", detail)
+	}
+}
+
+func c14SessionCfgs(set c14Set) []c14Evk {
+	out := []c14Evk{{set.maxQ(), -1, 16}, {set.maxQ(), -1, 8}, {set.maxQ(), set.maxP(), 0}}
+	if set.maxP() >= 0 {
+		out = append(out, c14Evk{set.maxQ(), 0, 16})
+	}
+	return out
+}
+
+// c14Session: one group of parties, ONE set of secret-key objects, a sequence of key generations (order drawn at
+// random; all orders over the runs of the thorough tier).  Every generation runs its ties and probes, so a protocol
+// call that damages a secret key (or any shared object) makes the LATER keys fail collective_key_works / the ties.
+func c14Session(c *Ctx, set c14Set, n int, cfg c14Evk) {
+	keys := c14GenKeys(set, n)
+	c14KeyOverride = &keys
+	defer func() { c14KeyOverride = nil }()
+	els := c14AllGalEls(set)
+	steps := []func(){
+		func() { c14CPK(c, set, n) },
+		func() { c14RKG(c, set, n, cfg) },
+		func() { c14GALEl(c, set, n, cfg, els[0]) },
+		func() { c14GALEl(c, set, n, cfg, els[1]) },
+		func() { c14EVK(c, set, n, cfg) },
+		func() { c14GALEl(c, set, n, cfg, els[len(els)-1]) },
+		func() { c14RKG(c, set, n, cfg) },
+	}
+	for _, k := range c14RandPerm(c, len(steps)) {
+		steps[k]()
+	}
+	chk := ""
+	for i := range keys.sk {
+		if IVec(c14Signed(set.params.RingQ(), keys.sk[i].Value.Q, true, true)) != IVec(keys.s[i]) {
+			chk = fmt.Sprintf("secret_key_of_party_%d_changed_during_the_session", i)
+			break
+		}
+	}
+	c.Probe("session_keys_intact", fmt.Sprintf("set=%s %s N=%d steps=%d", set.name, cfg, n, len(steps)), "C14-session-sk-modified", chk)
+	c.Count("multi_key_session")
+}
+
+// c14KeyOverride: when set, c14GenKeys returns these parties (the SAME secret-key objects) instead of fresh ones —
+// multi-key sessions generate cpk, rlk, Galois keys and evks one after the other with the same keys.
+var c14KeyOverride *c14Keys
 
 // ---------------------------------------------------------------------------------------------
 // the key must not alias the share / CRP it was generated from
@@ -608,6 +736,9 @@ func c14CPK(c *Ctx, set c14Set, n int) {
 	}
 	crp := protos[0].SampleCRP(crs)
 	a := Mat(c14QPRows(params, crp.Value, true, true))
+	inLab := fmt.Sprintf("set=%s N=%d", set.name, n)
+	chk := c14Inputs(c, "PublicKeyGenProtocol.GenShare", inLab, []string{"sk", "crp"},
+		[]func() string{func() string { return c14RawSks(keys) }, func() string { return c14RawQP(crp.Value) }})
 
 	shares := make([]multiparty.PublicKeyGenShare, n)
 	shareRows := make([]string, n)
@@ -620,6 +751,14 @@ func c14CPK(c *Ctx, set c14Set, n int) {
 		c.Count("cpk_share")
 	}
 
+	chk()
+	chk = c14Inputs(c, "PublicKeyGenProtocol.AggregateShares", inLab, []string{"shares"}, []func() string{func() string {
+		o := ""
+		for i := range shares {
+			o += c14RawQP(shares[i].Value) + " "
+		}
+		return o
+	}})
 	add := func(x, y multiparty.PublicKeyGenShare) (multiparty.PublicKeyGenShare, error) {
 		out := protos[0].AllocateShare()
 		protos[0].AggregateShares(x, y, &out)
@@ -647,8 +786,12 @@ func c14CPK(c *Ctx, set c14Set, n int) {
 		c.Count("agg_tie")
 	}
 
+	chk()
+	chk = c14Inputs(c, "PublicKeyGenProtocol.GenPublicKey", inLab, []string{"share", "crp", "sk"},
+		[]func() string{func() string { return c14RawQP(agg.Value) }, func() string { return c14RawQP(crp.Value) }, func() string { return c14RawSks(keys) }})
 	pk := rlwe.NewPublicKey(params)
 	protos[0].GenPublicKey(agg, crp, pk)
+	chk()
 	c.Emit("cpk_key "+Mat(c14QPRows(params, agg.Value, true, true))+" "+a,
 		Mat(c14QPRows(params, pk.Value[0], true, true))+"|"+Mat(c14QPRows(params, pk.Value[1], true, true)))
 	c.Count("cpk_key")
@@ -735,6 +878,9 @@ func c14EVK(c *Ctx, set c14Set, n int, cfg c14Evk) {
 	crpShape := c14CRPShape(crp.Value)
 	a := Mat(c14CRPRows(params, crp.Value, true))
 
+	inLab := fmt.Sprintf("set=%s %s N=%d", set.name, cfg, n)
+	chk := c14Inputs(c, "EvaluationKeyGenProtocol.GenShare", inLab, []string{"skIn", "skOut", "crp"},
+		[]func() string{func() string { return c14RawSks(in) }, func() string { return c14RawSks(out) }, func() string { return c14RawCRP(crp.Value) }})
 	shares := make([]multiparty.EvaluationKeyGenShare, n)
 	gs := make([]string, n)
 	for i := range shares {
@@ -753,6 +899,14 @@ func c14EVK(c *Ctx, set c14Set, n int, cfg c14Evk) {
 		gs[i] = c14G(params, &shares[i].GadgetCiphertext, true, true)
 	}
 
+	chk()
+	chk = c14Inputs(c, "EvaluationKeyGenProtocol.AggregateShares", inLab, []string{"shares"}, []func() string{func() string {
+		o := ""
+		for i := range shares {
+			o += c14RawGadget(&shares[i].GadgetCiphertext)
+		}
+		return o
+	}})
 	add := func(x, y multiparty.EvaluationKeyGenShare) (multiparty.EvaluationKeyGenShare, error) {
 		o := protos[0].AllocateShare(ep)
 		err := protos[0].AggregateShares(x, y, &o)
@@ -775,6 +929,10 @@ func c14EVK(c *Ctx, set c14Set, n int, cfg c14Evk) {
 		Mat(c14GRows(params, &agg.GadgetCiphertext, true, true)))
 	c.Count("evk_aggtree")
 
+	chk()
+	chk = c14Inputs(c, "EvaluationKeyGenProtocol.GenEvaluationKey", inLab, []string{"share", "crp", "skIn", "skOut"},
+		[]func() string{func() string { return c14RawGadget(&agg.GadgetCiphertext) }, func() string { return c14RawCRP(crp.Value) },
+			func() string { return c14RawSks(in) }, func() string { return c14RawSks(out) }})
 	evk := rlwe.NewEvaluationKey(params, ep)
 	keyTok := c14G(params, &evk.GadgetCiphertext, true, true)
 	res := Try(func() string {
@@ -786,6 +944,7 @@ func c14EVK(c *Ctx, set c14Set, n int, cfg c14Evk) {
 	c.Emit("evk_key "+set.ringTok(lq, lp)+" "+c14G(params, &agg.GadgetCiphertext, true, true)+" "+c14Shape(crpShape)+" "+a+" "+keyTok, res)
 	c.Count("evk_key")
 
+	chk()
 	c14ProbeEVK(c, set, n, cfg, in, out, evk, res == "panic")
 
 	// refused calls on receivers that hold a valid result: error AND receiver untouched AND key still works
@@ -888,6 +1047,9 @@ func c14GALEl(c *Ctx, set c14Set, n int, cfg c14Evk, galEl uint64) {
 	crpShape := c14CRPShape(crp.Value)
 	a := Mat(c14CRPRows(params, crp.Value, true))
 
+	inLab := fmt.Sprintf("set=%s %s N=%d galEl=%d", set.name, cfg, n, galEl)
+	chk := c14Inputs(c, "GaloisKeyGenProtocol.GenShare", inLab, []string{"sk", "crp"},
+		[]func() string{func() string { return c14RawSks(keys) }, func() string { return c14RawCRP(crp.Value) }})
 	shares := make([]multiparty.GaloisKeyGenShare, n)
 	gs := make([]string, n)
 	panicked := false
@@ -929,6 +1091,14 @@ func c14GALEl(c *Ctx, set c14Set, n int, cfg c14Evk, galEl uint64) {
 		return
 	}
 
+	chk()
+	chk = c14Inputs(c, "GaloisKeyGenProtocol.AggregateShares", inLab, []string{"shares"}, []func() string{func() string {
+		o := ""
+		for i := range shares {
+			o += U(shares[i].GaloisElement) + " " + c14RawGadget(&shares[i].GadgetCiphertext)
+		}
+		return o
+	}})
 	add := func(x, y multiparty.GaloisKeyGenShare) (multiparty.GaloisKeyGenShare, error) {
 		o := protos[0].AllocateShare(ep)
 		err := protos[0].AggregateShares(x, y, &o)
@@ -954,6 +1124,10 @@ func c14GALEl(c *Ctx, set c14Set, n int, cfg c14Evk, galEl uint64) {
 		U(agg.GaloisElement)+" "+Mat(c14GRows(params, &agg.GadgetCiphertext, true, true)))
 	c.Count("gal_aggtree")
 
+	chk()
+	chk = c14Inputs(c, "GaloisKeyGenProtocol.GenGaloisKey", inLab, []string{"share", "crp", "sk"},
+		[]func() string{func() string { return U(agg.GaloisElement) + " " + c14RawGadget(&agg.GadgetCiphertext) },
+			func() string { return c14RawCRP(crp.Value) }, func() string { return c14RawSks(keys) }})
 	gk := rlwe.NewGaloisKey(params, ep)
 	keyTok := U(gk.GaloisElement) + " " + c14G(params, &gk.GadgetCiphertext, true, true)
 	res := Try(func() string {
@@ -965,6 +1139,7 @@ func c14GALEl(c *Ctx, set c14Set, n int, cfg c14Evk, galEl uint64) {
 	c.Emit("gal_key "+set.ringTok(lq, lp)+" "+c14GalG(params, &agg)+" "+c14Shape(crpShape)+" "+a+" "+keyTok, res)
 	c.Count("gal_key")
 
+	chk()
 	c14ProbeGAL(c, set, n, cfg, keys, galEl, gk, res == "panic")
 
 	// refused calls on receivers that hold a valid result for element A (= galEl): error AND receiver untouched
@@ -1064,6 +1239,9 @@ func c14RKG(c *Ctx, set c14Set, n int, cfg c14Evk) {
 
 	eph := make([]*rlwe.SecretKey, n)
 	us := make([][]int, n)
+	inLab := fmt.Sprintf("set=%s %s N=%d", set.name, cfg, n)
+	chk := c14Inputs(c, "RelinearizationKeyGenProtocol.GenShareRoundOne", inLab, []string{"sk", "crp"},
+		[]func() string{func() string { return c14RawSks(keys) }, func() string { return c14RawCRP(crp.Value) }})
 	r1 := make([]multiparty.RelinearizationKeyGenShare, n)
 	r2 := make([]multiparty.RelinearizationKeyGenShare, n)
 	r1Rows := make([]string, n)
@@ -1085,6 +1263,17 @@ func c14RKG(c *Ctx, set c14Set, n int, cfg c14Evk) {
 		c.Count("rkg_r1")
 	}
 
+	chk()
+	rawShares := func(sh []multiparty.RelinearizationKeyGenShare) func() string {
+		return func() string {
+			o := ""
+			for i := range sh {
+				o += c14RawGadget(&sh[i].GadgetCiphertext)
+			}
+			return o
+		}
+	}
+	chk = c14Inputs(c, "RelinearizationKeyGenProtocol.AggregateShares", inLab, []string{"round1_shares"}, []func() string{rawShares(r1)})
 	add := func(x, y multiparty.RelinearizationKeyGenShare) (multiparty.RelinearizationKeyGenShare, error) {
 		var o multiparty.RelinearizationKeyGenShare
 		if x.Degree() == 1 {
@@ -1116,6 +1305,15 @@ func c14RKG(c *Ctx, set c14Set, n int, cfg c14Evk) {
 	c.Count("agg_tie")
 
 	r2Rows := make([]string, n)
+	chk()
+	chk = c14Inputs(c, "RelinearizationKeyGenProtocol.GenShareRoundTwo", inLab, []string{"ephSk", "sk", "round1"},
+		[]func() string{func() string {
+			o := ""
+			for i := range eph {
+				o += c14RawQP(eph[i].Value) + " "
+			}
+			return o
+		}, func() string { return c14RawSks(keys) }, func() string { return c14RawGadget(&agg1.GadgetCiphertext) }})
 	for i := range protos {
 		protos[i].GenShareRoundTwo(eph[i], keys.sk[i], agg1, &r2[i])
 		// twin: one error per (i,j), i outer
@@ -1139,8 +1337,13 @@ func c14RKG(c *Ctx, set c14Set, n int, cfg c14Evk) {
 	c.Emit("agg "+ms+" "+t2.String()+" "+I(n)+" "+strings.Join(r2Rows, " "), agg2Rows)
 	c.Count("agg_tie")
 
+	chk()
+	chk = c14Inputs(c, "RelinearizationKeyGenProtocol.GenRelinearizationKey", inLab, []string{"round1", "round2", "round2_shares", "sk"},
+		[]func() string{func() string { return c14RawGadget(&agg1.GadgetCiphertext) }, func() string { return c14RawGadget(&agg2.GadgetCiphertext) },
+			rawShares(r2), func() string { return c14RawSks(keys) }})
 	rlk := rlwe.NewRelinearizationKey(params, ep)
 	protos[0].GenRelinearizationKey(agg1, agg2, rlk)
+	chk()
 	c.Emit(fmt.Sprintf("rkg_key %s %s %s %s", set.ringTok(lq, lp), c14Shape(crpShape), agg1Rows, agg2Rows),
 		Mat(c14GRows(params, &rlk.GadgetCiphertext, true, true)))
 	c.Count("rkg_key")
